@@ -19,17 +19,36 @@ def timesY (t : Times) : List (Y × Y) :=
   if t = Times.one then []
   else [(.str "times".toList, .dict [(.str "min".toList, .int t.lo), (.str "max".toList, .int t.hi)])]
 
-def opY : Pat → Y
+mutual
+/-- operand-level patterns as written inside an item's operand list -/
+def yO : Pat → Y
   | .operand n _ => .str n
+  | .and l t => .dict ((.str "$and".toList, .list (yOL l)) :: timesY t)
+  | .or l t => .dict ((.str "$or".toList, .list (yOL l)) :: timesY t)
+  | .anyOrder l t => .dict ((.str "$and_any_order".toList, .list (yOL l)) :: timesY t)
+  | .not p _ t => .dict ((.str "$not".toList, .list [yO p]) :: timesY t)
   | _ => .null
+def yOL : List Pat → List Y
+  | [] => []
+  | p :: ps => yO p :: yOL ps
+end
 
-def opNode : Pat → Node
+mutual
+def nodeO : Pat → Node
   | .operand n _ => leafNode n
-  | _ => leafNode []
+  | .and l t => .mk "$and".toList t (nodeOL l)
+  | .or l t => .mk "$or".toList t (nodeOL l)
+  | .anyOrder l t => .mk "$and_any_order".toList t (nodeOL l)
+  | .not p _ t => .mk "$not".toList t [nodeO p]
+  | _ => .mk [] Times.one []
+def nodeOL : List Pat → List Node
+  | [] => []
+  | p :: ps => nodeO p :: nodeOL ps
+end
 
 mutual
 def yI : Pat → Y
-  | .mnem name ops t => .dict ((.str name, .list (ops.map opY)) :: timesY t)
+  | .mnem name ops t => .dict ((.str name, .list (yOL ops)) :: timesY t)
   | .and l t => .dict ((.str "$and".toList, .list (yIL l)) :: timesY t)
   | .or l t => .dict ((.str "$or".toList, .list (yIL l)) :: timesY t)
   | .anyOrder l t => .dict ((.str "$and_any_order".toList, .list (yIL l)) :: timesY t)
@@ -42,7 +61,7 @@ end
 
 mutual
 def nodeI : Pat → Node
-  | .mnem name ops t => .mk name t (ops.map opNode)
+  | .mnem name ops t => .mk name t (nodeOL ops)
   | .and l t => .mk "$and".toList t (nodeIL l)
   | .or l t => .mk "$or".toList t (nodeIL l)
   | .anyOrder l t => .mk "$and_any_order".toList t (nodeIL l)
@@ -55,14 +74,24 @@ end
 
 def okT (t : Times) : Bool := decide (t.lo ≤ t.hi)
 
-def plainOp : Pat → Bool
+mutual
+/-- the operand-level source fragment: plain names and nested operators (`$not` at operand level) -/
+def srcO : Pat → Bool
   | .operand n k => decide (PlainName n) && !k
+  | .and l t => !l.isEmpty && srcOL l && okT t
+  | .or l t => !l.isEmpty && srcOL l && okT t
+  | .anyOrder l t => !l.isEmpty && srcOL l && okT t
+  | .not p op t => op && srcO p && okT t
   | _ => false
+def srcOL : List Pat → Bool
+  | [] => true
+  | p :: ps => srcO p && srcOL ps
+end
 
 mutual
 /-- the instruction-level source fragment: what `yI` renders faithfully -/
 def srcI : Pat → Bool
-  | .mnem name ops t => decide (PlainName name) && ops.all plainOp && okT t
+  | .mnem name ops t => decide (PlainName name) && srcOL ops && okT t
   | .and l t => !l.isEmpty && srcIL l && okT t
   | .or l t => !l.isEmpty && srcIL l && okT t
   | .anyOrder l t => !l.isEmpty && srcIL l && okT t
@@ -119,33 +148,44 @@ theorem getTimes_timesY (k : Str) (l : List Y) (t : Times) (hk : k ≠ "times".t
     · exact absurd (Int.natCast_nonneg t.lo) (Int.not_le.mpr h)
     · omega
 
-/-! ## `build` on `yI` -/
+/-! ## `build` on `yO` / `yI` -/
+
+theorem srcOL_mem {l : List Pat} (h : srcOL l = true) : ∀ q ∈ l, srcO q = true := by
+  induction l with
+  | nil => simp
+  | cons p ps ih =>
+    simp only [srcOL, Bool.and_eq_true] at h
+    intro q hq
+    simp only [List.mem_cons] at hq
+    rcases hq with rfl | hq
+    · exact h.1
+    · exact ih h.2 q hq
 
 theorem yI_beq_times (p : Pat) : (yI p == Y.str "times".toList) = false := by
   show Y.beq (yI p) (Y.str "times".toList) = false
   cases p <;> simp [yI, Y.beq]
+
+theorem yO_beq_times (p : Pat) (h : srcO p = true) : (yO p == Y.str "times".toList) = false := by
+  cases p with
+  | operand n k =>
+    simp only [srcO, Bool.and_eq_true, decide_eq_true_eq] at h
+    exact str_beq_times n h.1.1
+  | and _ _ | or _ _ | anyOrder _ _ | not _ _ _ => exact dict_beq_times _
+  | mnem _ _ _ | timesMarker | deref _ _ | derefField _ _ | derefProp _ _ | capInstDef _ | capInstRef _
+  | capOpDef _ | capOpRef _ | capDerefDef _ | capDerefRef _ | regDef _ | regRef _ => simp [srcO] at h
 
 theorem any_times_yIL (l : List Pat) : (yIL l).any (· == Y.str "times".toList) = false := by
   induction l with
   | nil => simp [yIL]
   | cons p ps ih => simp only [yIL, List.any_cons, yI_beq_times, Bool.false_or]; exact ih
 
-theorem plainOp_inv {o : Pat} (h : plainOp o = true) : ∃ n, o = .operand n false ∧ PlainName n := by
-  cases o <;> simp [plainOp] at h
-  rename_i n k
-  obtain ⟨h1, h2⟩ := h
-  subst h2
-  exact ⟨n, rfl, h1⟩
-
-theorem ops_as_names (ops : List Pat) (h : ops.all plainOp = true) :
-    ∃ names : List Str, ops = names.map (fun o => Pat.operand o false) ∧ ∀ o ∈ names, PlainName o := by
-  induction ops with
-  | nil => exact ⟨[], rfl, by simp⟩
-  | cons o os ih =>
-    simp only [List.all_cons, Bool.and_eq_true] at h
-    obtain ⟨n, rfl, hn⟩ := plainOp_inv h.1
-    obtain ⟨ns, rfl, hns⟩ := ih h.2
-    exact ⟨n :: ns, rfl, by intro x hx; simp at hx; rcases hx with rfl | hx; exact hn; exact hns x hx⟩
+theorem any_times_yOL (l : List Pat) (h : srcOL l = true) : (yOL l).any (· == Y.str "times".toList) = false := by
+  induction l with
+  | nil => simp [yOL]
+  | cons p ps ih =>
+    simp only [srcOL, Bool.and_eq_true] at h
+    simp only [yOL, List.any_cons, yO_beq_times p h.1, Bool.false_or]
+    exact ih h.2
 
 theorem buildList_yIL (l : List Pat) (h : ∀ q ∈ l, build (yI q) = .ok (nodeI q)) :
     buildList (yIL l) = .ok (nodeIL l) := by
@@ -156,6 +196,16 @@ theorem buildList_yIL (l : List Pat) (h : ∀ q ∈ l, build (yI q) = .ok (nodeI
     rw [h p (by simp), ih (fun q hq => h q (by simp [hq]))]
     simp [bind, Except.bind, pure, Except.pure]
 
+theorem buildList_yOL (l : List Pat) (hs : srcOL l = true) (h : ∀ q ∈ l, build (yO q) = .ok (nodeO q)) :
+    buildList (yOL l) = .ok (nodeOL l) := by
+  induction l with
+  | nil => simp [yOL, nodeOL, buildList, pure, Except.pure]
+  | cons p ps ih =>
+    simp only [srcOL, Bool.and_eq_true] at hs
+    simp only [yOL, nodeOL, buildList, yO_beq_times p hs.1, Bool.false_eq_true, if_false]
+    rw [h p (by simp), ih hs.2 (fun q hq => h q (by simp [hq]))]
+    simp [bind, Except.bind, pure, Except.pure]
+
 theorem build_dict_list (k : Str) (l : List Y) (t : Times) (kids : List Node) (hk : k ≠ "times".toList)
     (hl : l.any (· == Y.str "times".toList) = false) (ht : okT t = true) (hb : buildList l = .ok kids) :
     build (Y.dict ((Y.str k, Y.list l) :: timesY t)) = .ok (.mk k t kids) := by
@@ -163,19 +213,69 @@ theorem build_dict_list (k : Str) (l : List Y) (t : Times) (kids : List Node) (h
   rw [getTimes_timesY k l t hk hl ht, hb]
   simp [bind, Except.bind, pure, Except.pure]
 
+theorem yOL_singleton (p : Pat) : yOL [p] = [yO p] := by simp [yOL]
+theorem nodeOL_singleton (p : Pat) : nodeOL [p] = [nodeO p] := by simp [nodeOL]
+theorem yIL_singleton (p : Pat) : yIL [p] = [yI p] := by simp [yIL]
+theorem nodeIL_singleton (p : Pat) : nodeIL [p] = [nodeI p] := by simp [nodeIL]
+
+/-- **`build` inverts `yO`** on the operand-level source fragment -/
+theorem build_yO : ∀ (p : Pat), srcO p = true → build (yO p) = .ok (nodeO p)
+  | .operand n k, _ => by simp [yO, nodeO, build, leafNode, pure, Except.pure]
+  | .and l t, h => by
+    simp only [srcO, Bool.and_eq_true] at h
+    simp only [yO, nodeO]
+    exact build_dict_list _ _ t _ (by decide) (any_times_yOL l h.1.2) h.2
+      (buildList_yOL l h.1.2 (fun q hq => build_yO q (srcOL_mem h.1.2 q hq)))
+  | .or l t, h => by
+    simp only [srcO, Bool.and_eq_true] at h
+    simp only [yO, nodeO]
+    exact build_dict_list _ _ t _ (by decide) (any_times_yOL l h.1.2) h.2
+      (buildList_yOL l h.1.2 (fun q hq => build_yO q (srcOL_mem h.1.2 q hq)))
+  | .anyOrder l t, h => by
+    simp only [srcO, Bool.and_eq_true] at h
+    simp only [yO, nodeO]
+    exact build_dict_list _ _ t _ (by decide) (any_times_yOL l h.1.2) h.2
+      (buildList_yOL l h.1.2 (fun q hq => build_yO q (srcOL_mem h.1.2 q hq)))
+  | .not p op t, h => by
+    simp only [srcO, Bool.and_eq_true] at h
+    simp only [yO, nodeO]
+    have hp := build_yO p h.1.2
+    have hs1 : srcOL [p] = true := by simp [srcOL, h.1.2]
+    have hb : buildList [yO p] = .ok [nodeO p] := by
+      have := buildList_yOL [p] hs1 (fun q hq => by simp at hq; subst hq; exact hp)
+      rwa [yOL_singleton, nodeOL_singleton] at this
+    have ha : [yO p].any (· == Y.str "times".toList) = false := by
+      have := any_times_yOL [p] hs1
+      rwa [yOL_singleton] at this
+    exact build_dict_list _ _ t _ (by decide) ha h.2 hb
+  | .mnem _ _ _, h => by simp [srcO] at h
+  | .timesMarker, h => by simp [srcO] at h
+  | .deref _ _, h => by simp [srcO] at h
+  | .derefField _ _, h => by simp [srcO] at h
+  | .derefProp _ _, h => by simp [srcO] at h
+  | .capInstDef _, h => by simp [srcO] at h
+  | .capInstRef _, h => by simp [srcO] at h
+  | .capOpDef _, h => by simp [srcO] at h
+  | .capOpRef _, h => by simp [srcO] at h
+  | .capDerefDef _, h => by simp [srcO] at h
+  | .capDerefRef _, h => by simp [srcO] at h
+  | .regDef _, h => by simp [srcO] at h
+  | .regRef _, h => by simp [srcO] at h
+termination_by p => sizeOf p
+decreasing_by
+  all_goals simp_wf
+  all_goals first
+    | (have := List.sizeOf_lt_of_mem ‹_ ∈ _›; omega)
+    | omega
+
 /-- **`build` inverts `yI`** on the source fragment -/
 theorem build_yI : ∀ (p : Pat), srcI p = true → build (yI p) = .ok (nodeI p)
   | .mnem name ops t, h => by
     simp only [srcI, Bool.and_eq_true, decide_eq_true_eq] at h
     obtain ⟨⟨hn, hops⟩, ht⟩ := h
-    obtain ⟨names, rfl, hnames⟩ := ops_as_names ops hops
-    have e1 : (names.map (fun o => Pat.operand o false)).map opY = names.map Y.str := by
-      simp [List.map_map, Function.comp_def, opY]
-    have e2 : (names.map (fun o => Pat.operand o false)).map opNode = names.map leafNode := by
-      simp [List.map_map, Function.comp_def, opNode]
-    simp only [yI, nodeI, e1, e2]
-    exact build_dict_list name _ t _ hn.1 (any_times_false names (fun o ho => (hnames o ho).1)) ht
-      (buildList_ops names (fun o ho => (hnames o ho).1))
+    simp only [yI, nodeI]
+    exact build_dict_list name _ t _ hn.1 (any_times_yOL ops hops) ht
+      (buildList_yOL ops hops (fun q hq => build_yO q (srcOL_mem hops q hq)))
   | .and l t, h => by
     simp only [srcI, Bool.and_eq_true] at h
     simp only [yI, nodeI]
@@ -197,10 +297,10 @@ theorem build_yI : ∀ (p : Pat), srcI p = true → build (yI p) = .ok (nodeI p)
     have hp := build_yI p h.1.2
     have hb : buildList [yI p] = .ok [nodeI p] := by
       have := buildList_yIL [p] (fun q hq => by simp at hq; subst hq; exact hp)
-      simpa [yIL, nodeIL] using this
+      rwa [yIL_singleton, nodeIL_singleton] at this
     have ha : [yI p].any (· == Y.str "times".toList) = false := by
       have := any_times_yIL [p]
-      simpa [yIL] using this
+      rwa [yIL_singleton] at this
     exact build_dict_list _ _ t _ (by decide) ha h.2 hb
   | .operand _ _, h => by simp [srcI] at h
   | .timesMarker, h => by simp [srcI] at h
@@ -241,14 +341,111 @@ theorem nodeIL_isEmpty (l : List Pat) (h : l.isEmpty = false) : (nodeIL l).isEmp
   | nil => simp at h
   | cons _ _ => simp [nodeIL]
 
+theorem typList_nodeOL (ch : Chain) (l : List Pat) (caps : List Str)
+    (h : ∀ q ∈ l, typ ch .mnemonic (nodeO q) caps = .ok (q, caps)) :
+    typList ch .mnemonic (nodeOL l) caps = .ok (l, caps) := by
+  induction l with
+  | nil => simp [nodeOL, typList, pure, Except.pure]
+  | cons p ps ih =>
+    simp only [nodeOL, typList]
+    rw [h p (by simp)]
+    simp only [bind, Except.bind]
+    rw [ih (fun q hq => h q (by simp [hq]))]
+    simp [pure, Except.pure]
+
+theorem nodeOL_isEmpty (l : List Pat) (h : l.isEmpty = false) : (nodeOL l).isEmpty = false := by
+  cases l with
+  | nil => simp at h
+  | cons _ _ => simp [nodeOL]
+
+/-- operand level: both chains that can meet an operand-level node (`operand` for the direct children of an
+item, `general` for the children of a nested operator) type `nodeO p` as `p` -/
+theorem typ_nodeO (caps : List Str) : ∀ (p : Pat), srcO p = true → ∀ ch, (ch = Chain.operand ∨ ch = Chain.general) →
+    typ ch .mnemonic (nodeO p) caps = .ok (p, caps)
+  | .operand n k, h, ch, hch => by
+    simp only [srcO, Bool.and_eq_true, decide_eq_true_eq, Bool.not_eq_true'] at h
+    obtain ⟨hn, hk⟩ := h
+    subst hk
+    have h1 := plain_ne n hn "$and".toList (by decide)
+    have h2 := plain_ne n hn "$or".toList (by decide)
+    have h3 := plain_ne n hn "$not".toList (by decide)
+    have h4 := plain_ne n hn "$and_any_order".toList (by decide)
+    have h5 := plain_ne n hn "$deref".toList (by decide)
+    have h6 := hn.1
+    obtain ⟨h7, h8⟩ := plain_not_capture n hn
+    rcases hch with rfl | rfl
+    · exact typ_leaf n hn caps
+    · rw [nodeO, leafNode, typ.eq_def]
+      simp only [h1, h2, h3, h4, h5, h6, h7, if_false, Bool.false_eq_true]
+      simp [pure, Except.pure]
+  | .and l t, h, ch, hch => by
+    simp only [srcO, Bool.and_eq_true, Bool.not_eq_true'] at h
+    have hk := nodeOL_isEmpty l h.1.1
+    have ih := typList_nodeOL .general l caps (fun q hq => typ_nodeO caps q (srcOL_mem h.1.2 q hq) .general (Or.inr rfl))
+    rcases hch with rfl | rfl <;>
+    · rw [nodeO, typ.eq_def]
+      simp only [if_true, hk, Bool.false_eq_true, if_false]
+      rw [ih]
+      simp [bind, Except.bind, pure, Except.pure]
+  | .or l t, h, ch, hch => by
+    simp only [srcO, Bool.and_eq_true, Bool.not_eq_true'] at h
+    have hk := nodeOL_isEmpty l h.1.1
+    have hne : "$or".toList ≠ "$and".toList := by decide
+    have ih := typList_nodeOL .general l caps (fun q hq => typ_nodeO caps q (srcOL_mem h.1.2 q hq) .general (Or.inr rfl))
+    rcases hch with rfl | rfl <;>
+    · rw [nodeO, typ.eq_def]
+      simp only [hne, if_true, hk, Bool.false_eq_true, if_false]
+      rw [ih]
+      simp [bind, Except.bind, pure, Except.pure]
+  | .anyOrder l t, h, ch, hch => by
+    simp only [srcO, Bool.and_eq_true, Bool.not_eq_true'] at h
+    have hk := nodeOL_isEmpty l h.1.1
+    have hne1 : "$and_any_order".toList ≠ "$and".toList := by decide
+    have hne2 : "$and_any_order".toList ≠ "$or".toList := by decide
+    have hne3 : "$and_any_order".toList ≠ "$not".toList := by decide
+    have ih := typList_nodeOL .general l caps (fun q hq => typ_nodeO caps q (srcOL_mem h.1.2 q hq) .general (Or.inr rfl))
+    rcases hch with rfl | rfl <;>
+    · rw [nodeO, typ.eq_def]
+      simp only [hne1, hne2, hne3, if_true, hk, Bool.false_eq_true, if_false]
+      rw [ih]
+      simp [bind, Except.bind, pure, Except.pure]
+  | .not p op t, h, ch, hch => by
+    simp only [srcO, Bool.and_eq_true] at h
+    obtain ⟨⟨hop, hp⟩, _⟩ := h
+    subst hop
+    have ih := typ_nodeO caps p hp .general (Or.inr rfl)
+    have hne1 : "$not".toList ≠ "$and".toList := by decide
+    have hne2 : "$not".toList ≠ "$or".toList := by decide
+    rcases hch with rfl | rfl <;>
+    · rw [nodeO, typ.eq_def]
+      simp only [hne1, hne2, if_true, if_false]
+      rw [ih]
+      simp [bind, Except.bind, pure, Except.pure]
+  | .mnem _ _ _, h, _, _ => by simp [srcO] at h
+  | .timesMarker, h, _, _ => by simp [srcO] at h
+  | .deref _ _, h, _, _ => by simp [srcO] at h
+  | .derefField _ _, h, _, _ => by simp [srcO] at h
+  | .derefProp _ _, h, _, _ => by simp [srcO] at h
+  | .capInstDef _, h, _, _ => by simp [srcO] at h
+  | .capInstRef _, h, _, _ => by simp [srcO] at h
+  | .capOpDef _, h, _, _ => by simp [srcO] at h
+  | .capOpRef _, h, _, _ => by simp [srcO] at h
+  | .capDerefDef _, h, _, _ => by simp [srcO] at h
+  | .capDerefRef _, h, _, _ => by simp [srcO] at h
+  | .regDef _, h, _, _ => by simp [srcO] at h
+  | .regRef _, h, _, _ => by simp [srcO] at h
+termination_by p => sizeOf p
+decreasing_by
+  all_goals simp_wf
+  all_goals first
+    | (have := List.sizeOf_lt_of_mem ‹_ ∈ _›; omega)
+    | omega
+
 /-- **the handler chains type `nodeI p` as `p`**, registering no capture -/
 theorem typ_nodeI (caps : List Str) : ∀ (p : Pat), srcI p = true → typ .general .none (nodeI p) caps = .ok (p, caps)
   | .mnem name ops t, h => by
     simp only [srcI, Bool.and_eq_true, decide_eq_true_eq] at h
     obtain ⟨⟨hn, hops⟩, _⟩ := h
-    obtain ⟨names, rfl, hnames⟩ := ops_as_names ops hops
-    have e2 : (names.map (fun o => Pat.operand o false)).map opNode = names.map leafNode := by
-      simp [List.map_map, Function.comp_def, opNode]
     have h1 := plain_ne name hn "$and".toList (by decide)
     have h2 := plain_ne name hn "$or".toList (by decide)
     have h3 := plain_ne name hn "$not".toList (by decide)
@@ -256,9 +453,9 @@ theorem typ_nodeI (caps : List Str) : ∀ (p : Pat), srcI p = true → typ .gene
     have h5 := plain_ne name hn "$deref".toList (by decide)
     have h6 := hn.1
     obtain ⟨h7, _⟩ := plain_not_capture name hn
-    rw [nodeI, e2, typ.eq_def]
+    rw [nodeI, typ.eq_def]
     simp only [h1, h2, h3, h4, h5, h6, h7, if_false, Bool.false_eq_true]
-    rw [typList_leaves names hnames caps]
+    rw [typList_nodeOL .operand ops caps (fun q hq => typ_nodeO caps q (srcOL_mem hops q hq) .operand (Or.inl rfl))]
     simp [bind, Except.bind, pure, Except.pure]
   | .and l t, h => by
     simp only [srcI, Bool.and_eq_true, Bool.not_eq_true'] at h
@@ -358,18 +555,86 @@ theorem capNumbers_operand (fl : Flags) (caps : List Str) (n : Str) (r : Rx)
   · cases pure_ok.mp hc; exact capNumbers_lit _
   · cases pure_ok.mp hc; exact capNumbers_nameWindow _ _
 
+/-- operand level: no capturing group either -/
+theorem comp_capFreeO (fl : Flags) (caps : List Str) :
+    ∀ (p : Pat), srcO p = true → ∀ r, comp fl caps p = .ok r → r.capNumbers = []
+  | .operand n k, h, r, hc => by
+    simp only [srcO, Bool.and_eq_true, Bool.not_eq_true'] at h
+    obtain ⟨_, hk⟩ := h
+    subst hk
+    exact capNumbers_operand fl caps n r hc
+  | .and l t, h, r, hc => by
+    simp only [srcO, Bool.and_eq_true] at h
+    simp only [comp] at hc
+    obtain ⟨cs, hcs, hr⟩ := bind_ok.mp hc
+    cases pure_ok.mp hr
+    rw [capNumbers_withTimes]
+    simp only [Rx.capNumbers]
+    exact capNumbers_seqAll cs (compList_forall fl caps (fun r => r.capNumbers = []) l cs hcs
+      (fun q hq r hr => comp_capFreeO fl caps q (srcOL_mem h.1.2 q hq) r hr))
+  | .or l t, h, r, hc => by
+    simp only [srcO, Bool.and_eq_true] at h
+    simp only [comp] at hc
+    obtain ⟨cs, hcs, hr⟩ := bind_ok.mp hc
+    cases pure_ok.mp hr
+    rw [capNumbers_withTimes]
+    simp only [Rx.capNumbers]
+    exact capNumbers_orJoin cs (compList_forall fl caps (fun r => r.capNumbers = []) l cs hcs
+      (fun q hq r hr => comp_capFreeO fl caps q (srcOL_mem h.1.2 q hq) r hr))
+  | .anyOrder l t, h, r, hc => by
+    simp only [srcO, Bool.and_eq_true] at h
+    simp only [comp] at hc
+    obtain ⟨cs, hcs, hr⟩ := bind_ok.mp hc
+    cases pure_ok.mp hr
+    have hall := compList_forall fl caps (fun r => r.capNumbers = []) l cs hcs
+      (fun q hq r hr => comp_capFreeO fl caps q (srcOL_mem h.1.2 q hq) r hr)
+    rw [capNumbers_withTimes]
+    simp only [Rx.capNumbers]
+    apply capNumbers_orJoin
+    intro r' hr'
+    obtain ⟨pm, hpm, rfl⟩ := List.mem_map.mp hr'
+    simp only [Rx.capNumbers]
+    exact capNumbers_seqAll pm (fun q hq => hall q (mem_perms_subset cs pm hpm q hq))
+  | .not p op t, h, r, hc => by
+    simp only [srcO, Bool.and_eq_true] at h
+    obtain ⟨⟨hop, hp⟩, _⟩ := h
+    subst hop
+    simp only [comp] at hc
+    obtain ⟨c, hcc, hr⟩ := bind_ok.mp hc
+    cases pure_ok.mp hr
+    have ih := comp_capFreeO fl caps p hp c hcc
+    rw [capNumbers_withTimes]
+    simp [Rx.capNumbers, ih, skipToEndOfOperand, clsNotCommaBar]
+  | .mnem _ _ _, h, _, _ => by simp [srcO] at h
+  | .timesMarker, h, _, _ => by simp [srcO] at h
+  | .deref _ _, h, _, _ => by simp [srcO] at h
+  | .derefField _ _, h, _, _ => by simp [srcO] at h
+  | .derefProp _ _, h, _, _ => by simp [srcO] at h
+  | .capInstDef _, h, _, _ => by simp [srcO] at h
+  | .capInstRef _, h, _, _ => by simp [srcO] at h
+  | .capOpDef _, h, _, _ => by simp [srcO] at h
+  | .capOpRef _, h, _, _ => by simp [srcO] at h
+  | .capDerefDef _, h, _, _ => by simp [srcO] at h
+  | .capDerefRef _, h, _, _ => by simp [srcO] at h
+  | .regDef _, h, _, _ => by simp [srcO] at h
+  | .regRef _, h, _, _ => by simp [srcO] at h
+termination_by p => sizeOf p
+decreasing_by
+  all_goals simp_wf
+  all_goals first
+    | (have := List.sizeOf_lt_of_mem ‹_ ∈ _›; omega)
+    | omega
+
 /-- **compiled rules of the source fragment contain no capturing group** -/
 theorem comp_capFree (fl : Flags) (caps : List Str) :
     ∀ (p : Pat), srcI p = true → ∀ r, comp fl caps p = .ok r → r.capNumbers = []
   | .mnem name ops t, h, r, hc => by
     simp only [srcI, Bool.and_eq_true, decide_eq_true_eq] at h
-    obtain ⟨names, rfl, _⟩ := ops_as_names ops h.1.2
     simp only [comp] at hc
     obtain ⟨os, hos, hr⟩ := bind_ok.mp hc
     have hall : ∀ o ∈ os, o.capNumbers = [] :=
-      compList_forall fl caps (fun r => r.capNumbers = []) _ os hos (fun q hq r hr => by
-        obtain ⟨n, _, rfl⟩ := List.mem_map.mp hq
-        exact capNumbers_operand fl caps n r hr)
+      compList_forall fl caps (fun r => r.capNumbers = []) _ os hos
+        (fun q hq r hr => comp_capFreeO fl caps q (srcOL_mem h.1.2 q hq) r hr)
     have hbody : (seqAll [nameWindow fl.mnemFull name, seqAll os, skipToEndOfPatternNode]).capNumbers = [] := by
       apply capNumbers_seqAll
       intro q hq
